@@ -842,8 +842,19 @@ func (g *c17Gen) docFor(t *c17Ty, mut int, nulls bool) *c17Doc {
 		n := r.Pick(0, 1, 2, 2, 3)
 		d := &c17Doc{kind: "obj"}
 		seen := map[string]bool{}
+		el := t.elem
+		for el.kind == "*" {
+			el = el.elem
+		}
 		for i := 0; i < n; i++ {
 			k := c17MapKeys[r.Intn(len(c17MapKeys))]
+			if el.kind == "{" && len(el.fields) > 0 && r.Chance(1, 2) {
+				// a map key that happens to spell a field name of the element struct (map keys are data)
+				f := &el.fields[r.Intn(len(el.fields))]
+				if !f.embedded {
+					k = r.PickS(c17KeyVariants(f.tagKey())...)
+				}
+			}
 			if seen[strings.ToLower(k)] {
 				continue
 			}
@@ -977,6 +988,25 @@ func c17GenSections(r *verifh.Rng) []verifh.Section {
 		g := &c17Gen{r: r.Fork(), plain: i%2 == 0}
 		depth := g.r.Pick(0, 1, 1, 2, 2, 3)
 		t := g.structTy(depth, false)
+		if i%8 == 7 {
+			// directed shape: a map that is not itself a struct field (element of a slice / of another map) over a struct
+			inner := g.structTy(g.r.Pick(0, 0, 1), false)
+			var el *c17Ty = inner
+			if g.r.Chance(1, 3) {
+				el = &c17Ty{kind: "*", elem: inner}
+			}
+			m := &c17Ty{kind: "%", elem: el}
+			var ft *c17Ty
+			switch g.r.Intn(3) {
+			case 0:
+				ft = &c17Ty{kind: "@", elem: m}
+			case 1:
+				ft = &c17Ty{kind: "%", elem: m}
+			default:
+				ft = &c17Ty{kind: "%", elem: &c17Ty{kind: "@", elem: m}}
+			}
+			t = &c17Ty{kind: "{", fields: []c17Field{{name: "Items", key: g.r.PickS("", "items", "Items"), ty: ft}}}
+		}
 		ops := []string{"type " + t.enc()}
 		nd := g.r.Range(4, 9)
 		for j := 0; j < nd; j++ {
